@@ -121,7 +121,7 @@ func main() {
 
 // ---------------------------------------------------------------- plan
 
-func plan(tier string, seed int64) []run.Batch {
+func planBase(tier string, seed int64) []run.Batch {
 	var bs []run.Batch
 	n := 0
 	only := os.Getenv("C14_KINDS") // debugging aid: run only these batch kinds (the verdict is then inconclusive at best)
@@ -172,7 +172,7 @@ func plan(tier string, seed int64) []run.Batch {
 	return bs
 }
 
-func child(b run.Batch, r *ev.Result) {
+func childBase(b run.Batch, r *ev.Result) {
 	switch b.Kind {
 	case "gap":
 		childGap(b, r)
